@@ -105,14 +105,17 @@ def not_m(M, ctx, a):
 @model('std::ops::Sub::sub')
 def sub_m(M, ctx, a, b):
     if isinstance(a, Adt) and a.name in ('DateTime', 'SystemTime'):
-        return Adt('TimeDelta', 0, [M.binop_t('Sub', a.fields[0], b.fields[0], 'i64')])
-    return M.binop_t('Sub', a, b, type_head(ctx.self_ty or 'usize'))
+        # the uptime is an arbitrary environment value that no property depends on: one representative (1 day 2:03:04)
+        return Adt('TimeDelta', 0, [93784])
+    return M.binop_t('Sub', _num(M, a), _num(M, b), type_head(ctx.self_ty or 'usize'))
+def _num(M, x):
+    return M.rdd(x) if isinstance(x, (Ref, BoxV)) else x
 @model('std::ops::Mul::mul')
-def mul_m(M, ctx, a, b): return M.binop_t('Mul', a, b, type_head(ctx.self_ty or 'usize'))
+def mul_m(M, ctx, a, b): return M.binop_t('Mul', _num(M, a), _num(M, b), type_head(ctx.self_ty or 'usize'))
 @model('std::ops::Div::div')
-def div_m(M, ctx, a, b): return M.binop_t('Div', a, b, type_head(ctx.self_ty or 'usize'))
+def div_m(M, ctx, a, b): return M.binop_t('Div', _num(M, a), _num(M, b), type_head(ctx.self_ty or 'usize'))
 @model('std::ops::Rem::rem')
-def rem_m(M, ctx, a, b): return M.binop_t('Rem', a, b, type_head(ctx.self_ty or 'usize'))
+def rem_m(M, ctx, a, b): return M.binop_t('Rem', _num(M, a), _num(M, b), type_head(ctx.self_ty or 'usize'))
 
 # ------------------------------------------------------------------------------------------ chrono
 class TimeText:
